@@ -649,3 +649,11 @@ silent("c05-s-unfold-freshness-isdisjoint", "C05", OPTIMIZER,
        "        if v.reduced_vars and any(v.reduced_vars & t.input_vars for t in siblings):\n            continue\n",
        "        if not all(v.reduced_vars.isdisjoint(t.input_vars) for t in siblings):\n            continue\n")
 rename("C05", OPTIMIZER, "unfold_contraction_generic_tuple")
+
+fire("c18-trace-record-drops-kwargs", "C18", OP,
+     "                op = cls(*args[cls.arity :], **kwargs)\n                trace.setdefault(id(result), (result, op, args[: cls.arity]))",
+     "                trace.setdefault(id(result), (result, self, raw_args))", "R18.7", "Op.__call__")
+silent("c18-s-trace-record-inline-op", "C18", OP,
+       "                op = cls(*args[cls.arity :], **kwargs)\n                trace.setdefault(id(result), (result, op, args[: cls.arity]))",
+       "                trace.setdefault(id(result), (result, cls(*args[cls.arity :], **kwargs), args[: cls.arity]))")
+rename("C18", OP, "Op.__call__")
